@@ -155,3 +155,42 @@ def float_conditioned(e: Any, rep: dict, want: Any, tol: float) -> bool:
     except Exception:  # pylint: disable=broad-except
         return False
     return values.close(val, want, tol * 100, 1e-38)
+
+
+# ---- matrices: containers of canonical expressions (the catalogue's matrix laws are 2x2 / vectors) ---
+
+MATRIX_ENTRIES = ["a", ("Add", "b", "2"), ("Mul", "a", "b"), ("Mul", "a", ("Pow", "c", "-1")),
+    ("Mul", "-1", "c"), ("Pow", "a", "2"), ("sqrt", "b"), "1/2", ("exp", ("Mul", "-1", "a"))]
+
+
+def matrix_space() -> Iterator[tuple[int, int, int]]:
+    """(rows, cols, rotation of the entry menu): all shapes up to 3 x 3, entries pairwise distinct"""
+    for r in (1, 2, 3):
+        for c in (1, 2, 3):
+            for rot in (0, 4):
+                yield (r, c, rot)
+
+
+def matrix_entries(r: int, c: int, rot: int) -> list[list[Any]]:
+    menu = MATRIX_ENTRIES[rot:] + MATRIX_ENTRIES[:rot]
+    return [[build(menu[i * c + j]) for j in range(c)] for i in range(r)]
+
+
+def split_top(text: str, sep: str, opening: str = "([{", closing: str = ")]}") -> list[str]:
+    """split at separators that are not inside brackets"""
+    out, depth, cur, i = [], 0, "", 0
+    while i < len(text):
+        ch = text[i]
+        if ch in opening:
+            depth += 1
+        elif ch in closing:
+            depth -= 1
+        if depth == 0 and text.startswith(sep, i):
+            out.append(cur)
+            cur = ""
+            i += len(sep)
+            continue
+        cur += ch
+        i += 1
+    out.append(cur)
+    return [x.strip() for x in out]
